@@ -4,6 +4,7 @@ import (
 	"context"
 	"errors"
 	"fmt"
+	"github.com/ethereum/go-ethereum/common"
 	"math/big"
 	"sync"
 
@@ -80,6 +81,17 @@ func (p *PaymentService) finishWithdraw(account store.Account) {
 	delete(p.withdrawing, account)
 }
 
+// canonicalWallet returns the one spelling under which a wallet is known to
+// the stores. The signature check accepts an address in any case of its hex
+// digits, but it is one wallet with one deposit, one balance and one nonce
+// sequence, and the contract's events name it in its checksummed form.
+func canonicalWallet(wallet string) string {
+	if common.IsHexAddress(wallet) {
+		return common.HexToAddress(wallet).Hex()
+	}
+	return wallet
+}
+
 func (p *PaymentService) verify(sig string, method string, wallet string, nonce int64, args ...interface{}) error {
 	if err := request.Verify(sig, method, wallet, nonce, args...); err != nil {
 		return pool.VerifyFailedError{Cause: err, Method: method}
@@ -87,7 +99,7 @@ func (p *PaymentService) verify(sig string, method string, wallet string, nonce 
 
 	// Only save the nonce once the signature is verified, otherwise anyone
 	// could burn the nonces of a wallet they don't control.
-	if err := p.NonceStore.CheckAndSaveNonce(wallet, nonce); err != nil {
+	if err := p.NonceStore.CheckAndSaveNonce(canonicalWallet(wallet), nonce); err != nil {
 		return pool.VerifyFailedError{Cause: err, Method: method}
 	}
 	return nil
@@ -100,6 +112,7 @@ func (p *PaymentService) Account(ctx context.Context, wallet string) (*AccountRe
 		return nil, errors.New("missing wallet parameter")
 	}
 
+	wallet = canonicalWallet(wallet)
 	balance, err := p.BalanceStore.GetAccountBalance(store.Account(wallet))
 	if err != nil {
 		return nil, err
@@ -125,7 +138,7 @@ func (p *PaymentService) AddNode(ctx context.Context, sig string, wallet string,
 		return err
 	}
 
-	return p.AccountStore.AddAccountNode(store.Account(wallet), store.NodeID(nodeID))
+	return p.AccountStore.AddAccountNode(store.Account(canonicalWallet(wallet)), store.NodeID(nodeID))
 }
 
 // Withdraw schedules a balance withdraw for an account
@@ -140,7 +153,7 @@ func (p *PaymentService) Withdraw(ctx context.Context, sig string, wallet string
 
 	// One withdrawal per account at a time, so that two requests can't both
 	// settle the same balance.
-	account := store.Account(wallet)
+	account := store.Account(canonicalWallet(wallet))
 	if !p.startWithdraw(account) {
 		return ErrWithdrawInProgress
 	}
